@@ -27,7 +27,7 @@ var levelNames = []string{"S", "T", "F"}
 // Encode generates the obligations of one function at one facet level. Candidate invariants are first
 // filtered to the inductive ones (Houdini): all are assumed, the ones not re-established are dropped, to a fix-point.
 func (E *Engine) Encode(name string, level int) *FuncResult {
-	ct := E.S.Contracts[name]
+	ct := E.effectiveContract(name)
 	fn := E.P.Funcs[name]
 	if ct == nil || len(ct.LoopCand) == 0 || fn == nil {
 		return E.encodeOnce(name, level, nil)
@@ -95,6 +95,61 @@ func (E *Engine) Encode(name string, level int) *FuncResult {
 	return E.encodeOnce(name, level, active)
 }
 
+// effectiveContract merges the contracts of the repository interfaces a method implements into its own contract:
+// an implementation is verified against the behavioural contract callers rely on at interface call sites.
+func (E *Engine) effectiveContract(name string) *Contract {
+	if E.effCache == nil {
+		E.effCache = map[string]*Contract{}
+	}
+	if c, ok := E.effCache[name]; ok {
+		return c
+	}
+	own := E.S.Contracts[name]
+	fn := E.P.Funcs[name]
+	res := own
+	if fn != nil && fn.Signature.Recv() != nil {
+		recvT := fn.Signature.Recv().Type()
+		for key, ict := range E.S.Contracts {
+			parts := strings.Split(key, ".")
+			if len(parts) != 3 || parts[2] != fn.Name() || ict.Extern {
+				continue
+			}
+			// is parts[0].parts[1] an interface type that recvT implements?
+			for _, sp := range E.P.SPkgs {
+				if sp == nil || shortPkg(sp.Pkg.Path()) != parts[0] {
+					continue
+				}
+				obj := sp.Pkg.Scope().Lookup(parts[1])
+				tn, ok := obj.(*types.TypeName)
+				if !ok {
+					continue
+				}
+				iface, ok := under(tn.Type()).(*types.Interface)
+				if !ok || !types.Implements(recvT, iface) {
+					continue
+				}
+				merged := &Contract{Func: name}
+				if res != nil {
+					cp := *res
+					merged = &cp
+				}
+				merged.Requires = append(append([]*Clause{}, merged.Requires...), ict.Requires...)
+				merged.Ensures = append(append([]*Clause{}, merged.Ensures...), ict.Ensures...)
+				merged.Preserves = append(append([]*Clause{}, merged.Preserves...), ict.Preserves...)
+				// renumber for stable obligation names
+				for i, c := range merged.Ensures {
+					cc := *c
+					cc.Ord = i + 1
+					merged.Ensures[i] = &cc
+				}
+				res = merged
+			}
+		}
+	}
+	E.effCache[name] = res
+	return res
+}
+
 func (E *Engine) encodeOnce(name string, level int, cands map[CandKey]bool) (res *FuncResult) {
 	res = &FuncResult{Func: name, Level: levelNames[level]}
 	fn := E.P.Funcs[name]
@@ -124,7 +179,7 @@ func (E *Engine) encodeOnce(name string, level int, cands map[CandKey]bool) (res
 		sort.Strings(res.Notes)
 		res.Notes = append(res.Notes, fx.unsupported...)
 	}()
-	ct := E.S.Contracts[name]
+	ct := E.effectiveContract(name)
 	fr := &frame{fx: fx, fn: fn, name: name, vals: map[ssa.Value]Value{}, params: map[string]Value{}, contract: ct, level: level}
 	entry := NewState()
 	entry.Brk = fx.brk0
@@ -260,7 +315,7 @@ func (E *Engine) encodeOnce(name string, level int, cands map[CandKey]bool) (res
 
 // LevelsOf says which facet levels a contract needs.
 func (E *Engine) LevelsOf(name string) []int {
-	ct := E.S.Contracts[name]
+	ct := E.effectiveContract(name)
 	if ct == nil {
 		return []int{0}
 	}
